@@ -19,7 +19,9 @@ ASSUMPTIONS = [
 ]
 REACH = ["_compute", "i_map", "od_reduce", "_c", "_sum_q", "_a", "_ladder_pairs", "v", "w", "vt", "wt", "rate",
          "_calculate_rankings", "_calculate_team_ratings", "_unwind", "_sorter"]
-EXHAUSTIVE = "all weak orders (3/13/75) of base games with k<=4 teams are enumerated; everything else is sampled"
+EXHAUSTIVE = ("all weak orders (3/13/75) of base games with k<=4 teams; the complete lattice of two single-player teams on a "
+              "5x4 grid of boundary values (mu in {-20b,-b,0,b,20b}, sigma in {1e-4b,0.1b,2b,10b}) x all outcomes x five "
+              "models (thorough: also a quarter of the three-team lattice); everything else is sampled")
 
 
 def floors(tier):
@@ -57,6 +59,32 @@ def generate(ctx):
                     meta = dict(regime=regime, levels=lv, enc=style, ties=gen.tie_shape(lv), k=k, exhaustive=True)
                     yield "game", dict(case=case, meta=meta)
                 ctx.count("exhaustive_base_games")
+    # lattice: single-player teams on a grid of boundary values (exact equalities of mu and sigma, the ends of the
+    # stated box), every outcome, every model, default configuration - enumerated completely for k = 2 in both tiers,
+    # for k = 3 in the thorough tier (sharded by grid index)
+    beta = 25.0 / 6.0
+    mus = [-20 * beta, -beta, 0.0, beta, 20 * beta]
+    sgs = [1e-4 * beta, 0.1 * beta, 2 * beta, 10 * beta]
+    pts = [(m_, s_) for m_ in mus for s_ in sgs]
+    cfg0 = dict(mu=25.0, sigma=25.0 / 3.0, beta=beta, kappa=1e-4, tau=25.0 / 300.0, limit_sigma=False, gamma="default")
+    idx = 0
+    for k in ((2,) if ctx.tier == "quick" else (2, 3)):
+        orders = [list(o) for o in gen.all_weak_orders(k)]
+        import itertools as _it
+
+        for combo in _it.product(range(len(pts)), repeat=k):
+            idx += 1
+            if idx % ctx.nshards != ctx.shard:
+                continue
+            if k == 3 and (sum(combo) * 7 + combo[0]) % 4:
+                continue  # every fourth grid point of the k = 3 lattice (the k = 2 lattice is complete)
+            teams = [[[pts[c_][0], pts[c_][1], f"g{t_}"]] for t_, c_ in enumerate(combo)]
+            for m in MODEL_NAMES:
+                for lv in orders:
+                    case = dict(model=m, cfg=cfg0, teams=teams, sel="ranks", vals=list(lv), call={})
+                    meta = dict(regime="lattice", levels=lv, enc="int0/ranks", ties=gen.tie_shape(lv), k=k, exhaustive=True)
+                    yield "game", dict(case=case, meta=meta)
+        ctx.count(f"lattice_k{k}_shards_done")
     ctx.count("exhaustive_complete")
 
 
